@@ -8,13 +8,16 @@ import sys
 import time
 
 VERIF = os.path.dirname(os.path.dirname(os.path.abspath(__file__)))
-WORK = os.path.join(VERIF, ".work")
+REPO = os.environ.get("VF_REPO", "/repo")
+# a separate work area (mirror, target, caches) for runs against a scratch copy of the
+# repository (seeded-defect tests), so that they never disturb checks of /repo itself
+WORK = os.path.join(VERIF, ".work" if os.path.realpath(REPO) == "/repo" else ".work-alt")
 MIRROR = os.path.join(WORK, "mirror")
 TARGET = os.path.join(WORK, "target")
 RT_TARGET = os.path.join(WORK, "rt-target")
 EVIDENCE = os.path.join(VERIF, "evidence")
-REPLAYS = os.path.join(VERIF, "replays")
-REPO = os.environ.get("VF_REPO", "/repo")
+REPLAYS = os.path.join(VERIF, "replays" if os.path.realpath(REPO) == "/repo" else "replays-alt")
+EVIDENCE = os.path.join(VERIF, "evidence" if os.path.realpath(REPO) == "/repo" else ".work-alt/evidence")
 EQLOG_BIN = os.path.join(TARGET, "debug", "eqlog")
 RT_BIN = os.path.join(RT_TARGET, "release", "vf-rt")
 RTLIB_DIR = os.path.join(WORK, "rtlib")
